@@ -122,6 +122,12 @@ func nextCloserDeniedWithWork(
 	for _, rr := range nsecSet {
 		n := rr.(*dns.NSEC)
 		if nsecCovers(n.Header().Name, n.NextDomain, nextCloser) {
+			// Coverage by an ancestor delegation/DNAME NSEC, or by an NSEC
+			// whose next name lies below the next closer name (which then
+			// exists as an empty non-terminal), denies nothing.
+			if nsecCoverDeniesName(n, nextCloser, true) != nil {
+				continue
+			}
 			return true, true, nil
 		}
 	}
